@@ -94,6 +94,54 @@ def declared_space(dvs, rng, cap):
     return [list(x) for x in sorted(xs)], False
 
 
+def out_of_range(dvs, xs, rng, per_var=3):
+    """Vectors whose DESIGN-VARIABLE-NODE entries lie outside the declared range (C16: far below / above the bounds,
+    negative and too large indices); the other entries are taken from in-range vectors."""
+    out = []
+    if not xs:
+        return out
+    for i, d in enumerate(dvs):
+        if d['kind'] != 'dv':
+            continue
+        if d['disc']:
+            vals = [-1, d['n'], d['n']+3]
+        else:
+            w = max(d['hi']-d['lo'], 1024)
+            vals = [d['lo']-w-1024, d['hi']+3*w, d['lo']-1]
+        bases = [xs[0], xs[-1]] + [rng.choice(xs) for _ in range(max(0, per_var-2))]
+        for v in vals:
+            for base in bases:
+                x = list(base)
+                x[i] = v
+                out.append(x)
+    return out
+
+
+def direct_sets(b, inst, rng, max_nodes=3):
+    """C16, second sentence: setting a value directly on a graph.  Every request is made on a fresh copy."""
+    from adsg_core.graph.adsg_nodes import DesignVariableNode
+    ev = []
+    nodes = sorted((n for n in inst.graph.nodes if isinstance(n, DesignVariableNode) and n in b.inv), key=lambda n: b.inv[n])[:max_nodes]
+    for n in nodes:
+        nd = b.g['nodes'][b.inv[n]-1]
+        if nd['disc']:
+            reqs = [-2*UNIT, 0, UNIT+410, (nd['k']-1)*UNIT, nd['k']*UNIT, (nd['k']+5)*UNIT]
+        else:
+            w = max(nd['hi']-nd['lo'], UNIT)
+            reqs = [nd['lo']-5*w, nd['lo'], (nd['lo']+nd['hi'])//2, nd['hi'], nd['hi']+1, nd['hi']+40*w]
+        for rq in reqs:
+            e = {'e': 'SetDv', 'n': b.inv[n], 'req': rq, 'err': '', 'vals': []}
+            try:
+                d = inst.copy()
+                d.set_des_var_value(n, rq/UNIT if (rq % UNIT or not nd['disc']) else rq//UNIT)
+                e['vals'] = sorted([b.inv[m], q(float(v))] for m, v in d.des_var_values.items() if m in b.inv)
+            except Exception as ex:
+                e['err'] = type(ex).__name__
+                e['msg'] = str(ex)[:120]
+            ev.append(e)
+    return ev
+
+
 def decode(b, p, dvs, xi, create):
     ev = {'e': 'Dec', 'x': xi, 'create': create, 'err': '', 'rx': [], 'ract': [], 'inst': NO_INST, 'hasinst': False}
     try:
@@ -136,9 +184,12 @@ def drive(g, tid=0, cap=600, seed=0, encoders=('complete', 'fast'), redecode=Tru
             continue
         ev.append(new)
         xs, complete = declared_space(dvs, rng, cap)
-        for xi in xs:
+        first_inst = None
+        for xi in xs + out_of_range(dvs, xs, rng):
             e1, inst = decode(b, p, dvs, xi, True)
             ev.append(e1)
+            if inst is not None and first_inst is None and e1['inst']['dvv']:
+                first_inst = inst
             if e1['err'] or not redecode:
                 continue
             # the corrected vector is decoded again, with and without materialising the instance
@@ -147,6 +198,8 @@ def drive(g, tid=0, cap=600, seed=0, encoders=('complete', 'fast'), redecode=Tru
                 ev.append(e2)
             e3, _ = decode(b, p, dvs, e1['rx'], False)
             ev.append(e3)
+        if first_inst is not None and enc == 'complete':
+            ev += direct_sets(b, first_inst, rng)
         # enumeration of the valid designs (complete encoder; None when unavailable)
         en = {'e': 'Enum', 'enc': enc, 'err': '', 'avail': False, 'rows': [], 'n_valid': -1, 'n_declared': -1,
               'ratio_ppm': -1, 'space_complete': complete}
